@@ -22,7 +22,7 @@ func init() {
 	run.Register(&run.Property{
 		ID:    "C18",
 		Title: "ExactEquals is structural identity; IgnoreOrder ignores only member/vertex order",
-		Rule: "cases = a base geometry tree (arbitrary finite-ordinate trees of every type/coordinate type/nesting with magnitudes from subnormal to 1e300, and valid lattice geometries with Z/M) together with a family of variants differing in exactly one respect (one ordinate by one ulp, two members swapped, one ring rotated or reversed, one linestring reversed, one member's emptiness, coordinate type, Point vs one-member MultiPoint, a duplicated member) and random permutations/rotations/reversals at every level; " +
+		Rule: "[added in rounds 9-11: tol-matching also on polygon holes, MultiPolygon members and nested collections] cases = a base geometry tree (arbitrary finite-ordinate trees of every type/coordinate type/nesting with magnitudes from subnormal to 1e300, and valid lattice geometries with Z/M) together with a family of variants differing in exactly one respect (one ordinate by one ulp, two members swapped, one ring rotated or reversed, one linestring reversed, one member's emptiness, coordinate type, Point vs one-member MultiPoint, a duplicated member) and random permutations/rotations/reversals at every level; " +
 			"ExactEquals with every option subset and both argument orders is compared with WKB equality (-0 = +0) and with a canonical form. non-trivial = pair of distinct trees; distinct by the pair of WKBs",
 		Assumptions: []string{"canonical form under IgnoreOrder: members sorted recursively, LineString = min(sequence, reversal), closed simple curves (decided by the exact oracle) = minimal rotation over both directions, polygon shell kept first",
 			"ToleranceXY: reflexive, symmetric, true for vertex-wise XY perturbations below e, false when exactly one vertex moves by more than e"},
